@@ -57,12 +57,42 @@ def install_hooks():
 # program strategy: pcode_gen trees + unterminated blocks (ended from a Watch, by End blocks, or never)
 # ---------------------------------------------------------------------------------------------
 
+WSI_1_IN = 3            # a blank/comment line gets its own (not the scope's) indentation in 1 of 3 cases
+WS_AFTER_OPENER_1_IN = 4  # a scope opener is followed by blank/comment lines before its body in 1 of 4 cases
+CUT_SHORT_1_IN = 10     # 1 of 10 programs with a macro gets the shape "call cut short by End block, macro called again"
+
+
+def render(tree: dict):
+    """pcode_gen.render plus free indentation of blank/comment lines: node field `wsi` = number of leading spaces
+    (0 = empty line / comment at column 0; never more than the indentation of the scope body the line sits in).
+    Everything else -- ids, kinds, payloads, depth and parent of the REFERENCE tree -- is pcode_gen's."""
+    lines = G.render(tree)
+    for l in lines:
+        if l.kind in WS and l.node is not None and l.node.get("wsi") is not None:
+            body = l.text.strip()
+            l.text = " " * int(l.node["wsi"]) + body
+    return lines
+
+
 @st.composite
 def program(draw, cfg: G.GenCfg, open_block_1_in: int = 4, force_trailing_1_in: int = 6, open_block_interrupt: bool = True):
     tree = draw(G.program(cfg))
 
-    def walk(nodes, in_block):
-        for n in nodes:
+    def ws_node(depth_of_line, shallow_only=False):
+        """a blank/comment node; indentation: the scope's own (pcode_gen default) or any smaller one, 0 included"""
+        k = draw(st.sampled_from(["blank", "comment"]))
+        n = {"k": k, "t": None}
+        if shallow_only or draw(st.integers(1, WSI_1_IN)) == 1:
+            top = max(0, depth_of_line - 1) if shallow_only else depth_of_line
+            choices = [0] + [4 * i for i in range(1, top + 1)] + ([2] if k == "blank" and top >= 1 else [])
+            n["wsi"] = draw(st.sampled_from(choices))
+        return n
+
+    def walk(nodes, in_block, depth):
+        for i, n in enumerate(nodes):
+            if n["k"] in WS:
+                nodes[i] = dict(ws_node(depth), k=n["k"])
+                continue
             if n["k"] == "block":
                 if draw(st.integers(1, open_block_1_in)) == 1:
                     n["end"] = None          # no terminator of its own
@@ -73,18 +103,38 @@ def program(draw, cfg: G.GenCfg, open_block_1_in: int = 4, force_trailing_1_in: 
                              "c": [{"k": "mark", "t": None},
                                    {"k": draw(st.sampled_from(["endblock", "endblock", "endblocks"])), "t": None}]}
                         n["c"].insert(draw(st.integers(0, len(n["c"]))), w)
-                walk(n.get("c", []), True)
-            elif "c" in n:
-                walk(n["c"], in_block and n["k"] != "macro")
-    walk(tree["body"], False)
+            if "c" in n:
+                walk(n["c"], (in_block or n["k"] == "block") and n["k"] != "macro", depth + 1)
+                if n["k"] in CONTAINERS and draw(st.integers(1, WS_AFTER_OPENER_1_IN)) == 1:
+                    # blank/comment lines between the opener and its body -- an ordinary, well-formed method;
+                    # at least one of them less indented than the body (empty line, comment further left)
+                    extra = [ws_node(depth + 1, shallow_only=True)]
+                    if draw(st.booleans()):
+                        extra.append(ws_node(depth + 1))
+                    n["c"][0:0] = extra
+    walk(tree["body"], False, 0)
+    # "a macro call cut short by End block, the macro called again later" -- an ordinary method, rare by chance
+    macros = [n for n in tree["body"] if n["k"] == "macro"]
+    if macros and draw(st.integers(1, CUT_SHORT_1_IN)) == 1:
+        m = draw(st.sampled_from(macros))
+        if open_block_interrupt:
+            ender = {"k": "watch", "t": None, "cond": draw(G.condition(cfg)), "cut_short": True,
+                     "c": [{"k": draw(st.sampled_from(["endblock", "endblock", "endblocks"])), "t": None}]}
+            blk = {"k": "block", "t": None, "end": None, "end_t": None,
+                   "c": [ender, {"k": "callmacro", "t": None, "name": m["name"]}, {"k": "mark", "t": None}]}
+            if draw(st.booleans()):
+                blk["c"].insert(1, {"k": "mark", "t": None})
+            tree["body"].extend([blk, {"k": "callmacro", "t": None, "name": m["name"]}, {"k": "mark", "t": None}])
     _fix_bodies(tree["body"])
     if draw(st.integers(1, force_trailing_1_in)) == 1:
         # blank/comment lines at the very end of the method (possibly inside the last open scope)
         tgt = tree["body"]
+        d = 0
         while tgt and tgt[-1]["k"] in CONTAINERS and not tgt[-1].get("end") and draw(st.booleans()):
             tgt = tgt[-1].setdefault("c", [])
+            d += 1
         for _ in range(draw(st.integers(1, 2))):
-            tgt.append({"k": draw(st.sampled_from(["blank", "comment"])), "t": None})
+            tgt.append(ws_node(d))
     return tree
 
 
@@ -109,13 +159,13 @@ def _strip_nested_interrupts(nodes, in_repeated: bool) -> int:
 
 
 def _fix_bodies(nodes):
-    """Every scope opener is directly followed by an instruction of its body (an opener without body, or with a body
-    that begins with blank/comment lines, is the C17 subject `empty-body-opener-captures-next-line`, not ours)."""
+    """Every scope opener has an instruction in its indented body (possibly after blank/comment lines).  An opener
+    without any body instruction is the C17 subject `empty-body-opener-captures-next-line`, not ours."""
     for n in nodes:
         if n["k"] in CONTAINERS:
             c = n.setdefault("c", [])
-            if (not c and not n.get("end")) or (c and c[0]["k"] in WS):
-                c.insert(0, {"k": "mark", "t": None})
+            if not n.get("end") and not any(x["k"] not in WS for x in c):
+                c.append({"k": "mark", "t": None})
             _fix_bodies(c)
 
 
@@ -140,7 +190,7 @@ def cases(draw, cfg: G.GenCfg, ticks: int, append_1_in: int = 5):
     # so that interrupt bodies run in a useful fraction of the cases; the trajectory may still switch them off and on
     def likely(nodes):
         for n in nodes:
-            if n["k"] in INTERRUPTS and draw(st.booleans()):
+            if n["k"] in INTERRUPTS and (n.get("cut_short") or draw(st.booleans())):
                 tag = n["cond"]["tag"]
                 n["cond"] = {"tag": tag, "op": draw(st.sampled_from(["=", "<=", ">=", "<", ">"])), "unit": G.UNITS_FOR[tag][0],
                              "val": int(init[tag])}
@@ -161,14 +211,20 @@ def valid_case(case) -> bool:
             return False
         if not isinstance(case.get("ticks"), int) or not (1 <= case["ticks"] <= 2000):
             return False
-        lines = G.render(case["tree"])
+        lines = render(case["tree"])
         if not lines or any(l.kind not in ALLOWED_KINDS for l in lines):
             return False
         if case["tree"].get("base") != "s":
             return False
         for i, l in enumerate(lines):
-            if l.kind in CONTAINERS and not (i + 1 < len(lines) and lines[i + 1].depth == l.depth + 1 and lines[i + 1].kind not in WS):
-                return False      # opener without an instruction as first body line (C17 territory)
+            if l.kind in CONTAINERS:
+                nxt = next((x for x in lines[i + 1:] if x.kind not in WS), None)
+                if nxt is None or nxt.parent != l.id:
+                    return False      # opener without an instruction in its indented body (C17 territory)
+            if l.kind in WS:
+                wsi = (l.node or {}).get("wsi")
+                if wsi is not None and not (isinstance(wsi, int) and not isinstance(wsi, bool) and 0 <= wsi <= 4 * l.depth):
+                    return False      # blank/comment lines are never indented deeper than the body they sit in
         for l in lines:
             n = l.node or {}
             if l.kind in INTERRUPTS and not (isinstance(n.get("cond"), dict) and n["cond"].get("tag") in G.UNITS_FOR
@@ -339,7 +395,7 @@ def append_position(prog: Prog):
 def run_trace(case, follow_up: bool = True) -> Trace:
     from vp.harness.engine_h import EngineHarness
     install_hooks()
-    lines = G.render(case["tree"])
+    lines = render(case["tree"])
     prog = Prog(lines)
     tr = Trace()
     tr.prog = prog
@@ -532,6 +588,67 @@ def analyse(tr: Trace):
     rearm: set = set()                 # alarms that completed a body and will re-register themselves
 
     first_exec_inst: dict = {}         # (line, pc) -> instance id of the first exec call (effect channel)
+    # Registered finding, recognised by its mechanism: a command issued by invocation k of a repeated body (Alarm or Macro
+    # body) reaches its conclusive run-log state (completed / cancelled / failed) only after invocation k is over and the body
+    # has been reset; that late state lands on the freshly reset node and invocation k+1 skips the line.  The signature keeps the name under which it is recorded in known_findings.json
+    # (first seen in an Alarm body); it is used for Alarm and Macro bodies alike, but only when the late completion is
+    # in the event log.
+    LATE_COMPLETION_SIG = "pred-not-started:command:in-alarm"
+    late_completed: dict = {}          # command line -> number of the parent's invocation that follows the one which issued a
+    #                                    command that completed only after that (issuing) invocation was over
+    inv_closed: set = set()            # (Alarm / Macro line, invocation number) of invocations that are over
+    # S6 -- open invocations of repeating / interrupt bodies: container line -> dict(ei0, tick, pc, cut, by)
+    inv_open: dict = {}
+    last_block_end_tick = [None]
+    cut_macros: set = set()            # macros with a call that was cut short by a block end (class only)
+
+    def inv_begin(cont, ei, tick, by=None):
+        if cx.weak(cont) or (by is not None and cx.weak(by)):
+            inv_open.pop(cont, None)
+            return
+        lbt = last_block_end_tick[0]
+        inv_open[cont] = {"ei0": ei, "tick": tick, "pc": cx.counter.get(cont, 0), "by": by,
+                          # a block that ended just before the start (same or previous tick) may enclose the invocation
+                          # dynamically: its lines are then legitimately not started
+                          "cut": (lbt is not None and lbt >= tick - 1) or ended_block_of(cont) is not None
+                          or (by is not None and ended_block_of(by) is not None)}
+
+    def inv_end(cont, ei, tick, by=None):
+        """S6: a completed invocation that no block end cut short has started every instruction line of its body"""
+        w = inv_open.pop(cont, None)
+        if w is None or w["by"] != by:
+            return
+        ck = prog.kind(cont)
+        if w["cut"]:
+            if ck == "macro":
+                cut_macros.add(cont)
+            return
+        if cont in cx.concurrent or cx.weak(cont) or ended_block_of(cont) is not None:
+            return
+        if ck == "macro" and cont in cut_macros:
+            info["classes"].add("macro-cut-short-then-called-again")
+        missing = []
+        for c in prog.children.get(cont, []):
+            kc = prog.kind(c)
+            if kc in WS:
+                continue
+            if kc == "callmacro" and prog.macro.get(prog.byid[c].payload) in cx.concurrent:
+                continue
+            hit = seen["L"].get((c, w["pc"]))
+            if hit is None or hit[0] < w["ei0"]:
+                missing.append(c)
+        if not missing:
+            info["complete_invocations"] = info.get("complete_invocations", 0) + 1
+            return
+        what = "%s (invocation #%d, tick %d..%d)" % (txt(by if by is not None else cont), w["pc"], w["tick"], tick)
+        if prog.nested_interrupt_in_alarm(cont) or any(prog.nested_interrupt_in_alarm(c) for c in missing):
+            sig = "invocation-skipped-line:interrupt-in-repeated-body"
+        elif all(prog.kind(c) in COMMANDS and late_completed.get(c) == w["pc"] for c in missing):
+            sig = LATE_COMPLETION_SIG
+        else:
+            sig = "invocation-skipped-line:%s%s" % (ck, ":command" if all(prog.kind(c) in COMMANDS for c in missing) else "")
+        add(v2, sig, "[L] %s completed without starting its body line(s) %s although no block ended during it"
+            % (what, [txt(c) for c in missing]))
 
     def on_start(ch, lid, ei, tick, inst=None):
         info["starts"] += 1
@@ -604,6 +721,8 @@ def analyse(tr: Trace):
                         % (tick, txt(lid), txt(p)))
             return
         if pkey not in seen["L"]:
+            if pk in COMMANDS and late_completed.get(p) == pc:
+                plab = LATE_COMPLETION_SIG[len("pred-not-started:"):]
             add(v2, "pred-not-started:%s" % plab, "[L] tick %d: %s started although the instruction before it, %s, has not started in this invocation"
                 % (tick, txt(lid), txt(p)))
             return
@@ -667,6 +786,10 @@ def analyse(tr: Trace):
                     cx.counter[m] = cx.counter.get(m, 0) + 1
                     cx.started_calls[m] = cx.started_calls.get(m, 0) + 1
                     info["macro_calls"] += 1
+                    if m in inv_open or m in cx.concurrent:
+                        inv_open.pop(m, None)        # overlapping calls of one macro are not judged
+                    else:
+                        inv_begin(m, ei, tick, by=node)
                     continue
                 if kind in ("endblock", "endblocks"):
                     on_start("L", node, ei, tick, inst)
@@ -677,16 +800,28 @@ def analyse(tr: Trace):
                         info["endblock_in_interrupt"] += 1
                     continue
                 on_start("L", node, ei, tick, inst)
+            elif state in ("cancelled", "failed"):
+                # a conclusive state of a command of an invocation that is already over (see LATE_COMPLETION_SIG)
+                if kind in COMMANDS and inst in key_of_inst and key_of_inst[inst][0] == node:
+                    par_, pc_old = prog.byid[node].parent, key_of_inst[inst][1]
+                    if par_ is not None and (par_, pc_old) in inv_closed:
+                        late_completed[node] = pc_old + 1
             elif state == "completed":
                 if inst in key_of_inst and key_of_inst[inst][0] == node:
                     completed[key_of_inst[inst]] = ei
                 if kind in COMMANDS:
                     cmd_done.add(inst)
+                    if inst in key_of_inst and key_of_inst[inst][0] == node:
+                        par_, pc_old = prog.byid[node].parent, key_of_inst[inst][1]
+                        if par_ is not None and (par_, pc_old) in inv_closed:
+                            late_completed[node] = pc_old + 1     # the invocation that issued it is over: the next one is hit
                 if kind == "callmacro":
                     m = prog.macro.get(prog.byid[node].payload)
                     cx.open_calls.setdefault(m, set()).discard(node)
                     if cx.started_calls.get(m, 0) > 0:
                         cx.started_calls[m] -= 1
+                    inv_closed.add((m, cx.counter.get(m, 0)))
+                    inv_end(m, ei, tick, by=node)
                 if kind in ("endblock", "endblocks") and end_window is not None and end_window[0] == node:
                     w = end_window
                     end_window = None
@@ -740,6 +875,9 @@ def analyse(tr: Trace):
                 if prog.kind(lid) == "watch":
                     cx.counter[lid] = cx.counter.get(lid, 0) + 1     # a Watch body runs once per registration
         elif k == "scope_end":
+            if e[2] in ("Watch", "Alarm") and e[3] in prog.byid:
+                inv_closed.add((e[3], cx.counter.get(e[3], 0)))
+                inv_end(e[3], ei, tick)
             if e[2] == "Alarm" and e[3] in prog.byid:
                 rearm.add(e[3])
         elif k == "scope_activate":
@@ -750,6 +888,8 @@ def analyse(tr: Trace):
                 cx.counter[e[3]] = cx.counter.get(e[3], 0) + 1
                 if cx.counter[e[3]] > 1:
                     info["alarm_reruns"] += 1
+            if e[2] in ("Watch", "Alarm") and e[3] in prog.byid:
+                inv_begin(e[3], ei, tick)
         elif k == "block_start":
             if e[2] == "root":
                 continue
@@ -774,6 +914,9 @@ def analyse(tr: Trace):
             if any(prog.kind(a) in INTERRUPTS for a in prog.anc[b]):
                 info["blocks_from_interrupt"] += 1
         elif k == "block_end":
+            last_block_end_tick[0] = tick
+            for w_ in inv_open.values():
+                w_["cut"] = True       # any block end during an invocation may cut it short (lexically or dynamically enclosing)
             b = prog.block.get(e[2])
             if b is None:
                 continue
